@@ -256,7 +256,30 @@ func eachPaced(emit func(xferCase)) {
 	emit(s)
 }
 
+// eachDatagram: IXFR answered in one datagram of 400..4000 octets on a caller-supplied datagram
+// conn, for every UDPSize setting (unset, small, large), with and without TSIG.
+func eachDatagram(emit func(xferCase)) {
+	for _, udp := range []int{0, 512, 600, 1232, 4096} {
+		for _, target := range []int{400, 512, 513, 601, 1233, 4000, 4097} {
+			for _, ts := range []*tsigSpec{nil, enumKey} {
+				fill := recSpec{T: "FILL", Owner: "fill", V: 1}
+				i := xferCase{Mode: "ixfr", Zone: "example.", QID: 4660, QSerial: 5, Serial: 7, Sender: "harness", Tsig: ts, Transport: "dgram", UDPSize: udp,
+					Diffs: []diffSpec{{From: 5, To: 7, Del: bodyRecs(1), Add: []recSpec{{T: "A", Owner: "n", V: 3}, fill}}}, Sizes: []int{7}}
+				a := xferCase{Mode: "axfrstyle", Zone: "example.", QID: 4660, QSerial: 5, Serial: 7, Sender: "harness", Tsig: ts, Transport: "dgram", UDPSize: udp,
+					Recs: append(bodyRecs(2), fill), Sizes: []int{5}}
+				for _, c := range []xferCase{i, a} {
+					if sizeFiller(&c, target) {
+						emit(c)
+					}
+				}
+			}
+		}
+		emit(xferCase{Mode: "uptodate", Zone: "example.", QID: 4660, QSerial: 7, Serial: 7, Sender: "harness", Transport: "dgram", UDPSize: udp, Sizes: []int{1}})
+	}
+}
+
 func init() {
+	pbt.RegisterEnum(pbt.Enum[xferCase]{Name: "ixfr-datagram", Each: eachDatagram, Check: checkXfer})
 	pbt.RegisterEnum(pbt.Enum[xferCase]{Name: "paced", Each: eachPaced, Check: checkXfer})
 	pbt.RegisterEnum(pbt.Enum[xferCase]{Name: "exact-size", Each: eachExactSize, Check: checkXfer})
 	pbt.RegisterEnum(pbt.Enum[xferCase]{Name: "same-connection", Each: eachSameConn, Check: checkXfer})
